@@ -220,6 +220,16 @@ class Exec:
         if sv.ty.kind == 'list': return sv._len_gt0
         if sv.ty.kind == 'ref': return sv.t != 0
         raise Unsupported(f'truth of {sv.ty}')
+    def truth_st(s, st, sv):
+        if getattr(sv, 'truth', None) is None and sv.ty.kind == 'ref' and sv.ty.arg in s.p.classes:
+            for dn in ('__bool__', '__len__'):
+                c_, m_ = s.p.method(sv.ty.arg, dn)
+                if m_ is not None:
+                    saved = list(s.guard); s.guard.append(sv.t != 0)
+                    try: r_ = s.call(st, m_, [sv], owner=c_)
+                    finally: s.guard = saved
+                    return And(sv.t != 0, s.truth(r_))
+        return s.truth(sv)
     def list_sv(s, st, term, ty):
         sv = SV(term, ty); sv._len_gt0 = s.llen(st.heap, sv) > 0; return sv
     # ---- expressions
@@ -256,7 +266,7 @@ class Exec:
         vs = [s.ev(st, x) for x in e.elts]; return SV(tuple(vs), TupT([v.ty for v in vs]))
     def ev_UnaryOp(s, st, e):
         v = s.ev(st, e.operand)
-        if isinstance(e.op, ast.Not): return SV(Not(s.truth(v)), BOOL)
+        if isinstance(e.op, ast.Not): return SV(Not(s.truth_st(st, v)), BOOL)
         if isinstance(e.op, ast.USub): return SV(simplify(-v.t), INT)
         raise Unsupported('unaryop')
     def floordiv(s, st, a, b):
@@ -300,13 +310,13 @@ class Exec:
                 ts = [s.truth(v) for v in vs]
                 return SV(And(ts) if isinstance(e.op, ast.And) else Or(ts), BOOL)
         # value semantics with short-circuit guards for obligations
-        first = s.ev(st, e.values[0]); acc_t, acc_truth, ty = first.t, s.truth(first), first.ty
+        first = s.ev(st, e.values[0]); acc_t, acc_truth, ty = first.t, s.truth_st(st, first), first.ty
         for nxt in e.values[1:]:
             g = acc_truth if isinstance(e.op, ast.And) else Not(acc_truth)
             s.guard.append(g)
             try: v = s.ev(st, nxt)
             finally: s.guard.pop()
-            vt = s.truth(v)
+            vt = s.truth_st(st, v)
             if acc_t.sort() != v.t.sort():
                 # mixed sorts: only the truth value is meaningful
                 acc_t = If(g, vt, acc_truth) if v.t.sort() == B else acc_t; ty = BOOL
@@ -436,7 +446,12 @@ class Exec:
                 raise Unsupported(f'isinstance {c}')
             if n == 'list':
                 if not e.args: return s.new_list(st, ListT(INT), IntVal(0), lambda k: IntVal(0))
-                v = s.ev(st, e.args[0]); arr = s.lelem(st.heap, v)
+                v = s.ev(st, e.args[0])
+                if v.ty.kind == 'ref' and v.ty.arg in s.p.classes and s.p.method(v.ty.arg, '__iter__')[1] is not None:
+                    c_, m_ = s.p.method(v.ty.arg, '__iter__')
+                    v = s.call(st, m_, [v], owner=c_)
+                    if v.ty.kind != 'list': raise Unsupported('list(obj): __iter__ contract does not return a list type')
+                arr = s.lelem(st.heap, v)
                 return s.new_list(st, v.ty, s.llen(st.heap, v), lambda k: Select(arr, k))
             if n == 'cls' and isinstance(st.env.get('cls'), str): return s.construct(st, st.env['cls'], e)
             if n in s.p.classes: return s.construct(st, n, e)
@@ -887,7 +902,7 @@ class Exec:
     def st_Assert(s, st, n, ctx):
         c = s.truth(s.ev(st, n.test)); s.oblige(st, f'assert@{n.lineno}', c); st.pc.append(c); yield st
     def st_If(s, st, n, ctx):
-        c = s.truth(s.ev(st, n.test))
+        c = s.truth_st(st, s.ev(st, n.test))
         a = st.fork(); a.pc.append(c); b = st.fork(); b.pc.append(Not(c))
         yield from s.run(a, n.body, ctx)
         yield from s.run(b, n.orelse, ctx)
@@ -1255,8 +1270,12 @@ def generate(ex, owner, name, kind=None):
     outs = list(ex.run(st, fdef.body, ctx))
     rets = ctx.returns + [(o, SV(IntVal(0), NONE)) for o in outs]
     npath = 0
+    try: decl_rty = parse_ann(fdef.returns, tv) if fdef.returns is not None else None
+    except Exception: decl_rty = None
     for o, v in rets:
         if is_gen: v = o.env['$out']; v = ex.list_sv(o, v.t, v.ty)
+        elif decl_rty is not None and decl_rty.kind == 'list' and isinstance(v, SV) and v.ty.kind == 'list' and v.ty != decl_rty:
+            ex.set_list(o, v.t, ex.llen(o.heap, v), ex.lelem(o.heap, v), decl_rty); v = ex.list_sv(o, v.t, decl_rty)
         o2 = o.fork(); o2.env = dict(o.env, result=v); o2.old = st.old; o2.old_env = st.old_env
         for gargs in c.ghost_exit:
             if not ex.uses(gargs[0]): continue
